@@ -191,7 +191,7 @@ func c16(c *core.Ctx) {
 }
 
 func c16Random(r *gen.Rand, i int64) string {
-	hosts := []string{"example.org", "a", "1.2.3.4", "[::1]", "[fe80::1%25eth0]", "[fe80::1%eth0]", "[::1", "::1]", "[]", "[[::1]]", "[::1]x", "host:", ":", "", "ü.example", "%41", "a@b"}
+	hosts := []string{"example.org", "a", "1.2.3.4", "[::1]", "[fe80::1%25eth0]", "[fe80::1%eth0]", "[::1", "::1]", "[]", "[[::1]]", "[::1]x", "host:", ":", "", "ü.example", "%41", "a@b", "[/]", "[/a]", "[a/b]", "[example.org]", "[1.2.3.4]", "[.]"}
 	ports := []string{"", ":3478", ":0", ":65535", ":65536", ":-1", ":", ":x", ":+80", ":99999999999999999999", "::", ":3478:1"}
 	queries := []string{"", "?transport=udp", "?transport=tcp", "?transport=", "?", "?&", "?transport=udp&transport=tcp", "?x=1", "?transport=udp&x", "?%zz", "?transport=%75dp", "#frag", "?;"}
 	schemes := []string{"stun:", "stuns:", "turn:", "turns:", "stun://", "turn://", "STUN:", "http:", "", ":", "stun", "stun:stun:"}
